@@ -114,3 +114,8 @@ install(globals(), 'C12', view, oracle,
 from harness import emitser as _es             # noqa: E402
 from harness.mixins import add_family as _add_family   # noqa: E402
 _add_family(globals(), _es, 'emitser', _es.oracle, share=0.05)
+
+
+# emit flags of processes sharing one schema object (one instance carries an `_emit` override)
+from harness import emitleak as _el                     # noqa: E402
+_add_family(globals(), _el, 'emitleak', _el.oracle, share=0.03)
